@@ -38,9 +38,15 @@ def worker(a):
             rep = "cell"
             tag = "xfab.%s metric %s u=%.6g" % (modname, G, u)
 
+            def CALL(f, *args):
+                r, m_ = L.twice(f, *args)
+                if m_:
+                    out.append(m_ + " (%s)" % tag)
+                return r
+
             def probes(cell):
                 v = []
-                V = mod.cell_volume(cell)
+                V = CALL(mod.cell_volume, cell)
                 if not (abs(V * V - u ** 3 * det) <= 1e-9 * u ** 3 * det):
                     v.append("cell_volume^2 = %.15g, metric gives %.15g (%s)" % (V * V, u ** 3 * det, tag))
                 for (h, q) in rec["q"]:
@@ -98,7 +104,7 @@ def worker(a):
                                            (h, s, "4pi" if L.W[modname] else "2", ref, tag))
                         cur, rep = B, "B"
                     elif step == "form_a_mat_inv":
-                        Ai = np.asarray(mod.form_a_mat_inv(cur), dtype=float)
+                        Ai = np.asarray(CALL(mod.form_a_mat_inv, cur), dtype=float)
                         A, rep_msg = L.twice(mod.form_a_mat, cur)
                         A = np.asarray(A, dtype=float)
                         if rep_msg:
@@ -126,14 +132,14 @@ def worker(a):
                         if rep == "cell":
                             out += probes(cur)
                     elif step == "a_to_cell":
-                        c = list(mod.a_to_cell(cur))
+                        c = list(CALL(mod.a_to_cell, cur))
                         want = cell0 if rep == "A" else L.cell_from_metric(adj, 1.0 / (u * det))
                         rep = "cell" if rep == "A" else "recip"
                         if not L.cell_close(c, want):
                             out.append("a_to_cell gives %s, expected %s (%s)" % (c, want, tag))
                         cur = c
                     elif step == "b_to_cell":
-                        c = list(mod.b_to_cell(cur))
+                        c = list(CALL(mod.b_to_cell, cur))
                         if not L.cell_close(c, cell0):
                             out.append("b_to_cell(form_b_mat(cell)) gives %s, expected %s (%s)" % (c, cell0, tag))
                         cur, rep = c, "cell"
